@@ -344,7 +344,15 @@ def run_forked(task, timeout=120):
 def main():
     tasks = json.load(open(sys.argv[1]))
     install_stubs()
-    import nbformat                                   # noqa: F401  (imported before forking: shared by children)
+    import nbformat                                   # imported and warmed up before forking (validator and schema caches are
+    try:                                              # nbformat's, not nbdime's): children then start from a warm nbformat
+        _w = nbformat.v4.new_notebook(cells=[nbformat.v4.new_code_cell('x'), nbformat.v4.new_markdown_cell('y')])
+        for _minor in (2, 4, 5):
+            _w['nbformat_minor'] = _minor
+            try: nbformat.reads(nbformat.writes(_w), as_version=4)
+            except Exception: pass
+    except Exception:
+        pass
     import_error = None
     try:
         import nbdime.webapp.nbdimeserver             # noqa: F401  import only; never executed in the parent
